@@ -24,7 +24,7 @@ LEVEL = ("(Also: secularize() called explicitly, repeatedly and in different bas
          "generated operator (1e-9 relative). Operator-form tensors are checked through their action on generated "
          "complex operators and again element-wise after convert_2_tensor(). Secularised tensors are compared inside "
          "eigenbasis_of(H) with an unsecularised twin: kept elements equal, all others exactly zero."
-         " Later additions: tensors asked for after an earlier call with other options and recalculate=False; Foerster tensors initialised twice; a deterministic grid of far-detuned Foerster-type tensors.")
+         " Later additions: tensors asked for after an earlier call with other options and recalculate=False; Foerster tensors initialised twice; a deterministic grid of far-detuned Foerster-type tensors. Round five: secular twin comparison also for the time-dependent combined tensor; electronic Lindblad forms of (vibronic) dimers; more deterministic cells (secular variants, histories).")
 NOTE = ("dim <= 4 (quick) / 5 (thorough); time-dependent tensors on <= 150 time points. The secular differential clause "
         "is asserted for Redfield and Lindblad tensors (for the combined tensor the secularisation basis - the "
         "Hamiltonian with the cut-off subtracted - is not the basis of the returned Hamiltonian).")
